@@ -339,3 +339,8 @@ type operationT = operation.Operation
 func jsonUnmarshal(b []byte, v interface{}) error { return json.Unmarshal(b, v) }
 
 func raceBuild() bool { return os.Getenv("VERIF_RACE") == "1" }
+
+func logHas(s iface.Store, c cid.Cid) bool {
+	_, ok := s.OpLog().Get(c)
+	return ok
+}
